@@ -700,7 +700,16 @@ def pinned_specs(seed):
     # accent building with an explicit width operand, base and accent with real outlines
     seac = {"kind": "cff", "cff": cff, "names": [".notdef", "A", "grave", "B", "Agrave"], "use_subrs": False, "extras": {}, "pinned": "seac",
             "seac": {"adx": rnd.randint(-50, 250), "ady": rnd.randint(0, 120), "explicit": True, "width": widths[1] + 50}}
-    return [seac]
+    # CID-keyed CFF whose font dicts have different most-common advances, and a glyph of the first font dict that has the
+    # other font dict's common advance (half-width glyph in a full-width font dict)
+    wa, wb = rnd.sample([300, 500, 600, 1000], 2)
+    nfd = rnd.choice([2, 3])
+    fds = [0, 0, 0, 0, 1, 1, 1] + ([2, 2] if nfd == 3 else [])
+    widths = [wa, wa, wa, wb, wb, wb, wb] + ([wb, wb] if nfd == 3 else [])
+    cid = {"kind": "cid", "names": [".notdef"] + ["cid%05d" % i for i in range(1, len(fds))], "extras": {}, "pinned": "cid-widths",
+           "cid": {"fd": fds, "shapes": [[rnd.randint(2, 8) * 50, rnd.randint(2, 8) * 50, rnd.randint(0, 4) * 25] for _ in range(nfd)],
+                   "nominal": [rnd.choice([0, 100, 500]) for _ in range(nfd)], "widths": widths, "fdselect": rnd.choice([0, 3])}}
+    return [seac, cid]
 
 
 def build(spec):
